@@ -223,8 +223,10 @@ func sendPacket(l *NDNLPLinkService, out dispatch.OutPkt) {
 
 	// Sequence
 	if len(fragments) > 1 {
-		for _, fragment := range fragments {
+		for i, fragment := range fragments {
 			fragment.Sequence = utils.IdPtr(l.nextSequence)
+			fragment.FragIndex = utils.IdPtr(uint64(i))
+			fragment.FragCount = utils.IdPtr(uint64(len(fragments)))
 			l.nextSequence++
 		}
 	}
